@@ -35,6 +35,9 @@ class ResponseInit(Contract):
         f['raw'] = a.header_data
         f['_rid'] = fresh('resp_id', I)
         f['status_code'] = mk(ip, T.Opt(T.Int), 'status_code')
+        f['status'] = mk(ip, T.Str, 'status')
+        f['http_ver'] = mk(ip, T.Str, 'http_ver')
+        f['headers'] = None
         return None
 
 
